@@ -121,10 +121,33 @@ static int op_bits(int argc, char **argv, FILE *out) {
     return 1;
 }
 
+/* rawget <hex> <nboff> <nbits> <n>... : asn_get_few_bits on an explicit (buffer, nboff, nbits) position;
+ * prints value@<buffer offset>:<nboff>:<nbits> after every read, stops at the first -1.
+ * The buffer is an exact-size heap block.  Precondition nboff <= nbits <= 8*size (else "precond"). */
+static int op_rawget(int argc, char **argv, FILE *out) {
+    size_t len; uint8_t *bf = hx_parse_exact(argv[1], &len);
+    long long nboff, nbits;
+    if(!bf || !parse_ll(argv[2], &nboff) || !parse_ll(argv[3], &nbits) || nboff < 0 || nbits < 0) { fputs("bad-op", out); free(bf); return 1; }
+    if(nboff > nbits || (size_t)nbits > 8 * len) { fputs("precond", out); free(bf); return 1; }
+    asn_per_data_t pd; memset(&pd, 0, sizeof pd);
+    pd.buffer = bf; pd.nboff = nboff; pd.nbits = nbits;
+    for(int i = 4; i < argc; i++) {
+        long long n;
+        if(!parse_ll(argv[i], &n) || n < 0 || n > 64) { fputs("bad-tok", out); break; }
+        int32_t v = asn_get_few_bits(&pd, (int)n);
+        if(i > 4) fputc(',', out);
+        if(v < 0) { fputs("-1", out); break; }
+        fprintf(out, "%d@%zu:%zu:%zu", (int)v, (size_t)(pd.buffer - bf), pd.nboff, pd.nbits);
+    }
+    free(bf);
+    return 1;
+}
+
 int ops_per(int argc, char **argv, FILE *out) {
     const char *op = argv[0];
     long long a, b, c; unsigned long long u;
     if(argc >= 2 && !strcmp(op, "bits")) return op_bits(argc, argv, out);
+    if(argc >= 4 && !strcmp(op, "rawget")) return op_rawget(argc, argv, out);
 
     if(argc == 3 && !strcmp(op, "uper_put_length")) {
         if(!parse_ull(argv[1], &u) || !parse_ll(argv[2], &a)) { fputs("bad-op", out); return 1; }
